@@ -9,7 +9,7 @@ TRUST = [
 PROPS = {
     "C16": {
         "title": "Public algebraic helpers satisfy their defining identities",
-        "rule": "seeded random cases: (lc-arith) op sequences of length 1..12 over += -= *= with (coeff,lc), lc, constants on LinearCombination, value compared after every op with a shadow value under a random assignment; (evaluate-query-set) random labelled univariate / multilinear polynomial sets and query sets with shared labels and point values, compared with independent Horner / hypercube evaluation; (succinct-check-poly) k=0..10 challenges incl. 0/1, evaluate(z) vs Horner(compute_coeffs) vs the product definition. Distinct = distinct (scheme, class, descriptor) SHA-256 hashes; every case is non-trivial (the oracle has no precondition).",
+        "rule": "seeded random cases: (lc-arith) op sequences of length 1..12 over += -= *= with (coeff,lc), lc, constants on LinearCombination, value compared after every op with a shadow value under a random assignment, one operand in thirty with 20..400 terms (repeated labels, constants); (evaluate-query-set) random labelled univariate / multilinear polynomial sets and query sets with shared labels and point values, compared with independent Horner / hypercube evaluation; (succinct-check-poly) k=0..10 challenges incl. 0/1, evaluate(z) vs Horner(compute_coeffs) vs the product definition. Distinct = distinct (scheme, class, descriptor) SHA-256 hashes; every case is non-trivial (the oracle has no precondition).",
         "required_classes": ["lc-arith", "evaluate-query-set", "succinct-check-poly"],
         "technique": "runtime monitoring: shadow-value oracle over random operation sequences + reference evaluators",
         "level_text": "Randomised differential monitoring of the public helper API against independent reference computations; 10^5 (quick) to 3*10^6 (thorough) oracle evaluations per run. Adequate because the helpers are pure functions with tiny state, so diverse random inputs reach every branch (each operator, One/label terms, zero/one coefficients, k=0..10).",
@@ -18,7 +18,7 @@ PROPS = {
     },
 }
 
-GEN = "seeded generator over scheme configurations (max/supported degree, enforced bound lists, hiding support, num_vars), polynomial shapes (full, random, zero, constant, low-order zeros, top monomial, sparse / mixed monomials), in-domain (degree bound, hiding bound) pairs with tight (bound == degree, including bound 0 for constants), loosest and arbitrary bounds and degrees at the maximum / one below / around powers of two, univariate Ligero sizes on both sides of the 2-row / 4-row matrix boundary, hostile query sets (several polynomials per point label, labels sharing a point value, one polynomial at many points, label orders differing from insertion order) and list permutations; 11 schemes (Marlin, Sonic, IPA, PST13, Hyrax, univariate/multilinear Ligero, Brakedown through the trait; KZG10, multilinear PST, streaming KZG directly; thorough adds BLS12-377 instances). Workloads named `<scheme>/large` repeat the same cases on configurations beyond a thousand coefficients (univariate 1023..2100 / thorough ..4200, 10 or 12 variables, PST13 4 variables of degree 11). "
+GEN = "seeded generator over scheme configurations (max/supported degree, enforced bound lists, hiding support, num_vars), polynomial shapes (full, random, zero, constant, low-order zeros, top monomial, sparse / mixed monomials), in-domain (degree bound, hiding bound) pairs with tight (bound == degree, including bound 0 for constants), loosest and arbitrary bounds and degrees at the maximum / one below / around powers of two, univariate Ligero sizes on both sides of the 2-row / 4-row matrix boundary, hostile query sets (several polynomials per point label, labels sharing a point value, one polynomial at many points, label orders differing from insertion order) and list permutations; 11 schemes (Marlin, Sonic, IPA, PST13, Hyrax, univariate/multilinear Ligero, Brakedown through the trait; KZG10, multilinear PST, streaming KZG directly; thorough adds BLS12-377 instances). API surface: the library calls are made with slices / plain iterators, with lazy iterators without a length hint (every second call) and, where nothing needs randomness, without an RNG (every fourth call). In C01, C02, C03, C05, C06, C08, C10, C11, C12 and C18 half of the linear-code worlds come from the public parameter constructors (security level 64 / 100 / 128, inverse rate 2..8 including non-powers of two, well-formedness check on / off) instead of setup / trim; hiding support is drawn up to the supported and the maximum degree. Workloads named `<scheme>/large` repeat the same cases on configurations beyond a thousand coefficients (univariate 1023..2100 / thorough ..4200, 10 or 12 variables, PST13 4 variables of degree 11). "
 DIST = " Distinct = distinct SHA-256 hashes of (scheme, class, full case descriptor); a case is non-trivial when its oracle preconditions held (skipped cases are reported separately and never counted)."
 
 PROPS.update({
@@ -63,8 +63,8 @@ PROPS.update({
     },
     "C06": {
         "title": "Linear-combination openings",
-        "rule": GEN + "LC sets: 1..4 combinations of 1..6 terms, coefficients in {0,1,-1,random}, repeated labels, LCTerm::One terms, 1..3 point labels some sharing a point value, several LCs per point. Oracles: honest open_combinations/check_combinations accepts the true values (recomputed from the polynomials); a changed claimed value, verifier-side coefficient (on a non-vanishing evaluation), constant, or transmitted evaluation (plain, and shifted with all LC claims recomputed consistently) is not accepted; a combination mixing a degree-bounded polynomial with other terms is refused by open_combinations." + DIST,
-        "required_classes": ["honest-lc-accepted", "lc-value-perturbed", "lc-coefficient-perturbed", "lc-constant-perturbed", "degree-bound-mix-refused", "evals-perturbed"],
+        "rule": GEN + "LC sets: 1..4 combinations of 1..6 terms, coefficients in {0,1,-1,random}, repeated labels, LCTerm::One terms, 1..3 point labels some sharing a point value, several LCs per point. Oracles: honest open_combinations/check_combinations accepts the true values (recomputed from the polynomials); a changed claimed value, two claimed values changed by (+d, -d) or exchanged, verifier-side coefficient (on a non-vanishing evaluation), constant, or transmitted evaluation (plain, and shifted with all LC claims recomputed consistently) is not accepted; a combination mixing a degree-bounded polynomial with other terms is refused by open_combinations." + DIST,
+        "required_classes": ["honest-lc-accepted", "lc-value-perturbed", "lc-coefficient-perturbed", "lc-constant-perturbed", "degree-bound-mix-refused", "evals-perturbed", "lc-values-cancelling-pair"],
         "technique": "runtime monitoring: generated LC workloads, accept-oracle + single-fault reject-oracle with truth recomputation",
         "level_text": "Exploration of LC shapes the suite never builds (constants, zero/negative coefficients, repeated labels, shared point values) through both the Marlin-style overrides and the trait default, with fault injection on every verifier-visible LC component.",
         "design_ref": "5 (C06)",
@@ -72,8 +72,8 @@ PROPS.update({
     },
     "C08": {
         "title": "Commitments are the key-defined linear map",
-        "rule": "Per scheme, seeded polynomials p, q of all shapes, scalars a, b in {0,1,-1,random}, with/without degree bound and hiding: commitment == naive term-by-term scalar-multiplication sum over the PUBLIC PARAMETERS (plain window 0.., shifted window (max-d).., PST13 by term lookup, multilinear by hypercube index, Hyrax per row in column-major layout minus r_i*h from the mirrored state, streaming through the H2 hook) plus the blinding image computed from the returned state; a*C(p)+b*C(q) == image(a*p+b*q) + image of the library-combined randomness (and == library commit of the combination when unblinded); commit(0) == identity; PST13 term-order independence; Ligero/Brakedown: metadata == public compute_dimensions, root == Merkle root recomputed in the harness over Blake2s column hashes of the row-encoded matrix, equal polynomials equal roots, different polynomials different roots." + DIST,
-        "required_classes": ["naive-msm-plain", "naive-msm-shifted", "additivity", "zero-is-identity", "merkle-root-recomputed", "matrix-layout"],
+        "rule": "Per scheme, seeded polynomials p, q of all shapes, scalars a, b in {0,1,-1,random}, with/without degree bound and hiding: commitment == naive term-by-term scalar-multiplication sum over the PUBLIC PARAMETERS (plain window 0.., shifted window (max-d).., PST13 by term lookup, multilinear by hypercube index, Hyrax per row in column-major layout minus r_i*h from the mirrored state, streaming through the H2 hook) plus the blinding image computed from the returned state; a*C(p)+b*C(q) == image(a*p+b*q) + image of the library-combined randomness (and == library commit of the combination when unblinded); commit(0) == identity; PST13 term-order independence; Ligero/Brakedown: metadata == public compute_dimensions, root == Merkle root recomputed in the harness over Blake2s column hashes of the row-encoded matrix (Ligero: rows encoded by the harness itself - Horner evaluation at the powers of the primitive root of the smallest power-of-two domain with at least n_cols * rho_inv points - and compared with the library encoding; Brakedown: library `encode`), equal polynomials equal roots, different polynomials different roots." + DIST,
+        "required_classes": ["naive-msm-plain", "naive-msm-shifted", "additivity", "zero-is-identity", "merkle-root-recomputed", "matrix-layout", "reed-solomon-rows"],
         "technique": "runtime monitoring: reference-model oracle (naive MSM / independent Merkle recomputation) on commit outputs",
         "level_text": "Every commitment produced is compared with an independent recomputation from public key elements; the oracle shares no code with the library's MSM, window arithmetic or Merkle tree.",
         "design_ref": "5 (C08)",
@@ -105,8 +105,8 @@ PROPS.update({
 PROPS.update({
     "C11": {
         "title": "Transcript lock-step",
-        "rule": GEN + "Histories of 2..6 operations drawn from {open(k polys), batch_open(query set), open_combinations(LC)} proved on ONE recording sponge pre-seeded with arbitrary bytes and verified in the same order on an identically initialised sponge. Oracles: every check accepts; after every prefix the two sponge states are equal (two field elements squeezed from clones); a proof verified after an extra absorb on the verifier side, or an operation (statement + proof) verified at another position of the history, is not accepted when the operation involves a non-constant polynomial (else skipped)." + DIST,
-        "required_classes": ["lock-step-accept", "lock-step-state", "different-prestate-rejected", "moved-proof-rejected"],
+        "rule": GEN + "Histories of 2..6 operations drawn from {open(k polys), batch_open(query set), open_combinations(LC)} proved on ONE recording sponge pre-seeded with arbitrary bytes and verified in the same order on an identically initialised sponge. Oracles: every check accepts; after every prefix the two sponge states are equal (two field elements squeezed from clones); a proof verified after an extra absorb on the verifier side, or an operation (statement + proof) verified at another position of the history, is not accepted when the operation involves a non-constant polynomial (else skipped; also skipped for linear-code proofs bound through a few column positions only: well-formedness off and fewer than 64 coefficients). Marlin, Sonic, PST13 and IPA additionally run a three-operation history on Poseidon sponges over a DIFFERENT prime field (252 / 253 / 255 bit) - the schemes that absorb field elements cannot use such a sponge." + DIST,
+        "required_classes": ["lock-step-accept", "lock-step-state", "different-prestate-rejected", "moved-proof-rejected", "lock-step-accept[foreign-field-sponge]", "lock-step-state[foreign-field-sponge]"],
         "technique": "runtime monitoring: operation histories on a recording sponge, state-equality oracle after every prefix + transcript-binding reject-oracle",
         "level_text": "History exploration (sequences, not single calls): the sponge is the only state that crosses calls, and it is caller-owned, so wrapping it observes every absorb/squeeze of both sides without touching the implementation.",
         "design_ref": "5 (C11)",
@@ -114,7 +114,7 @@ PROPS.update({
     },
     "C12": {
         "title": "Serialization",
-        "rule": GEN + "Every artefact produced along the transcript (universal parameters, committer key, verifier key, each commitment, each commitment state, batch proof, combination proof, labelled polynomial; KZG10 powers/keys/proofs/randomness; multilinear-PST keys/commitment/proof) is serialized compressed and uncompressed: serialized_size == bytes written; deserialization with and without validation consumes all bytes and re-serializes identically; proper prefixes (all for <= 600 bytes, 48 sampled cut points otherwise) fail. Decisions of batch_check, check and check_combinations on an honest and on a tampered claim are equal for original and deserialized (vk, commitments, proofs); deserialized parameters trim to byte-identical keys that verify; deserialized committer key and states produce accepted proofs; combination proofs additionally with every shape of the optional evaluation list (None, empty, 1, 3 entries)." + DIST,
+        "rule": GEN + "Every artefact produced along the transcript (universal parameters, committer key, verifier key, each commitment, each commitment state, batch proof, combination proof, labelled polynomial; KZG10 powers/keys/proofs/randomness; multilinear-PST keys/commitment/proof) is serialized compressed and uncompressed: serialized_size == bytes written; deserialization with and without validation consumes all bytes and re-serializes identically; proper prefixes (all for <= 600 bytes, 48 sampled cut points otherwise) fail. Decisions of batch_check, check and check_combinations on an honest and on a tampered claim are equal for original and deserialized (vk, commitments, proofs); deserialized parameters trim to byte-identical keys that verify; deserialized committer key and states produce accepted proofs; combination proofs additionally with every shape of the optional evaluation list (None, empty, 1, 3 entries); one case round-trips KZG10 universal parameters with more than 2^16 powers (the largest size explored)." + DIST,
         "required_classes": ["roundtrip[universal-params]", "roundtrip[committer-key]", "roundtrip[verifier-key]", "roundtrip[commitment]", "roundtrip[commitment-state]", "roundtrip[batch-proof]", "decision-preserved[batch_check]", "decision-preserved[check]", "trim-of-deserialized-params", "batch-lc-proof"],
         "technique": "runtime monitoring: round-trip laws + differential verification decisions between original and deserialized artefacts",
         "level_text": "Round-trip and size laws on every artefact of every generated transcript plus behavioural equivalence of the reloaded values in all three verification entry points (which is what exposes wrongly rebuilt prepared elements).",
@@ -168,8 +168,8 @@ PROPS.update({
 PROPS.update({
     "C17": {
         "title": "Out-of-domain requests are refused",
-        "rule": GEN + "Every generated in-domain pipeline must not be refused or abort (setup, trim, commit, batch_open, batch_check). Around it, out-of-domain requests with magnitudes at the boundary (supported+1, supported+2, max+1, 0): query for an unknown polynomial (batch_open, batch_check, open_combinations), missing evaluation, missing commitment, degree beyond the key, hiding beyond the key / zero (where declared unsupported) / without RNG, bound below the degree / beyond the key (commit and verifier side), zero degree / zero or missing variables at setup, wrong number of variables (Hyrax, Brakedown, multilinear PST: larger and smaller), point of the wrong length, mismatched labels (Hyrax, IPA), IPA `open` with a polynomial whose (valid) degree bound differs from the one recorded on its commitment (other value, present on one side only), KZG10 direct API. Oracle: the outcome is Err or panic (for verification calls: not accept); which of the two is reported in observed_counters, not judged." + DIST,
-        "required_classes": ["in-domain-no-abort", "unknown-polynomial", "missing-evaluation", "degree-beyond-key", "hiding-beyond-key", "hiding-without-rng", "bound-beyond-key", "setup-degree-zero", "wrong-num-vars[larger]", "bound-differs-from-commitment", "wrong-num-vars[smaller]", "point-length-mismatch", "mismatched-labels"],
+        "rule": GEN + "Every generated in-domain pipeline must not be refused or abort (setup, trim, commit, batch_open, batch_check). Around it, out-of-domain requests with magnitudes at the boundary (supported+1, supported+2, max+1, 0): query for an unknown polynomial (batch_open, batch_check, open_combinations), missing evaluation, missing commitment, degree beyond the key, hiding beyond the key / zero (where declared unsupported) / without RNG, bound below the degree / beyond the key (commit and verifier side), zero degree / zero or missing variables at setup, wrong number of variables (Hyrax, Brakedown, multilinear PST: larger and smaller), point of the wrong length, mismatched labels (Hyrax, IPA), IPA `open` with a polynomial whose (valid) degree bound differs from the one recorded on its commitment (other value, present on one side only), KZG10 direct API incl. batch_check with every combination of its four lists differing in length by one honest entry. Oracle: the outcome is Err or panic (for verification calls: not accept); which of the two is reported in observed_counters, not judged." + DIST,
+        "required_classes": ["in-domain-no-abort", "unknown-polynomial", "missing-evaluation", "degree-beyond-key", "hiding-beyond-key", "hiding-without-rng", "bound-beyond-key", "setup-degree-zero", "wrong-num-vars[larger]", "bound-differs-from-commitment", "wrong-num-vars[smaller]", "point-length-mismatch", "mismatched-labels", "list-lengths-differ"],
         "technique": "runtime monitoring: boundary-magnitude request injection with outcome classification (Ok / Err / panic) via catch_unwind",
         "level_text": "Each refusal boundary of each scheme is probed from both sides on generated configurations; the in-domain side reuses the honest-workload generator so that a refusal introduced for valid inputs is caught as well.",
         "design_ref": "5 (C17)",
@@ -180,7 +180,7 @@ PROPS.update({
 PROPS.update({
     "C19": {
         "title": "Succinctness",
-        "rule": "Sizes are measured on the canonical compressed serialization (and compared with serialized_size) along geometric ladders: degree 2..256 (Marlin, Sonic, streaming; IPA incl. non-powers of two), (1..5 variables) x (degree 1..3) for PST13, 1..10 variables multilinear PST, 0..10 variables Hyrax, degree 3..16383 / 2..14 variables for Ligero / Brakedown; random degree-bound and hiding settings, 1..3 polynomials, 1..3 points. Laws (exact byte counts): KZG family constant commitment and per-point proof, batch proof == 8 + points * proof, independent of the number of polynomials; PST13 / multilinear PST one group element per variable; IPA 2*log2(d+1) round elements; Hyrax 2^(n/2) row commitments and z entries per polynomial; Ligero / Brakedown commitment 64 bytes and proof <= 4 x min over power-of-two row counts of a byte-exact model of the proof (t paths, t columns, opening vectors) -- evaluated separately where t is below the codeword length and where it is capped by it. Combination proofs (Marlin, Sonic, IPA open_combinations over mixed hiding / non-hiding polynomials, equations listed in both orders, own and shared point labels): every per-point proof has the single-opening size, the blinding part present exactly when a hiding polynomial takes part at that point." + DIST,
+        "rule": "Sizes are measured on the canonical compressed serialization (and compared with serialized_size) along geometric ladders: degree 2..256 (Marlin, Sonic, streaming; IPA incl. non-powers of two), (1..5 variables) x (degree 1..3) for PST13, 1..10 variables multilinear PST, 0..10 variables Hyrax, degree 3..16383 / 2..14 variables for Ligero / Brakedown; random degree-bound and hiding settings, 1..3 polynomials, 1..3 points. Laws (exact byte counts): KZG family constant commitment and per-point proof, batch proof == 8 + points * proof, independent of the number of polynomials; PST13 / multilinear PST one group element per variable; IPA 2*log2(d+1) round elements; Hyrax 2^(n/2) row commitments and z entries per polynomial; Ligero / Brakedown commitment 64 bytes and proof <= 4 x min over power-of-two row counts of a byte-exact model of the proof (t paths, t columns, opening vectors) -- evaluated separately where t is below the codeword length and where it is capped by it. Combination proofs (Marlin, Sonic, PST13 - incl. 0*h + p and h + p - h, which are unblinded - and IPA open_combinations over mixed hiding / non-hiding polynomials, equations listed in both orders, own and shared point labels): every per-point proof has the single-opening size, the blinding part present exactly when a hiding polynomial takes part at that point." + DIST,
         "required_classes": ["constant-size", "one-element-per-variable", "two-elements-per-round", "square-root-size", "proof-within-4x-of-best-shape[t-below-codeword-length]", "combination-proof-size"],
         "technique": "runtime monitoring: size-law oracle over serialized artefacts along geometric size ladders",
         "level_text": "Every law is an exact byte count (or, for the code-based schemes, a bound against a byte-exact model minimised over matrix shapes) evaluated on real serialized commitments and proofs across three orders of magnitude of polynomial size.",
